@@ -1507,8 +1507,11 @@ example : (List.range 1).foldl (fun (acc : Outcome (List (List Col))) q =>
           | .panic p => .panic p
         else .ok (cells ++ [zeroCols 1 (staleG.rank + 1) 4])
       | o => o) (.ok []) = .ok ((List.range 1).map (fun _ => zeroCols 1 2 4)) :=
-  matFold_ok false 1 4 4 1 0 2 [] 4 staleG (fun _ => zeroCols 1 2 4) 1 (by intro q hq; have : q = 0 := by omega
-                                                                       subst this; rfl)
+  matFold_ok false 1 4 4 1 0 2 [] 4 staleG (fun _ => zeroCols 1 2 4) 1 (by
+    intro q hq
+    have h0 : q = 0 := by omega
+    subst h0
+    rfl)
 
 /-- **`mat_external_product_decrypts`** — `ggsw_external_product` / `gglwe_external_product` as WHOLE matrices (∀-cell corollary of
 `ep_decrypts_any_radix`): the call returns `rowsRes·colsIn` cells; every cell of the common rows is `glwe_external_product` of the
